@@ -337,6 +337,13 @@ func (r *Renderer) Malformed(x, tag string) *Line {
 		n := 1 << 20
 		return mk(tag, []string{t + r.pick(big(n), "NOOP"+strings.Repeat("A", n), "LOGIN "+big(n)+" x", `LOGIN "`+big(n)+`" x`, "SELECT "+big(n),
 			"FETCH "+strings.Repeat("9", n)+" (UID)", "STATUS "+big(n)+" (MESSAGES)") + "\r\n"}, false)
+	case "bare_lf":
+		// the server's own recovery rule is "skip to the next line feed": a bare LF ends the (erroneous) line, which is
+		// answered at once; what follows is the next line
+		return mk(tag, []string{t + r.pick("NOOP\n", "CAPABILITY\n", "NOOP \n", "noop\n", "LOGIN a\n", "FOO\n")}, false)
+	case "raw8bit":
+		return mk(tag, []string{t + r.pick("LIST \"\xff\" \"*\"", "LIST \"\" \"\xff%\"", "LSUB \"\xfe\xff\" \"*\"", "LIST \"\xc3\" \"\xc3*\"",
+			"STATUS \"\xff\xfe\" (MESSAGES)", "LIST \"\xed\xa0\x80\" \"%\"", "LSUB \"\" \"\x80\"") + "\r\n"}, false)
 	case "quoted_eof":
 		return mk(tag, []string{t + r.pick(`LOGIN "abc`, `SELECT "INB`, `LOGIN user "p`, `LOGIN "a\`, `LIST "" "`, `ID ("na`)}, true)
 	case "lit_eof":
